@@ -824,6 +824,13 @@ var c20NamesQuick = []c20Name{
 	{"index.html", 33},   // index.html at top level
 	{"s/index.html", 34}, // index.html in a sub-directory
 	{"empty", 0},         // empty file
+	// index.html below directories whose names need escaping: the directory URL and the
+	// redirect target are built from the directory name, not only from the file name
+	{"café/index.html", 40}, // non-ASCII directory
+	{"d#x/index.html", 41},  // '#' in the directory name
+	{"q r/index.html", 42},  // space in the directory name
+	{"p%41/index.html", 43}, // '%41' in the directory name
+	{"u?v/index.html", 44},  // '?' in the directory name
 }
 
 var c20NamesThorough = append(append([]c20Name{}, c20NamesQuick...),
